@@ -516,10 +516,20 @@ class DFAState(NamedTuple):
 
 
 def dfa(nfa: list[list[Edge]]) -> ContentMatch:
-    labeled = {}
+    labeled: dict[str, ContentMatch] = {}
+    # explicit work list instead of recursion: an expression with nested counted
+    # repetitions can need thousands of states, one stack frame each
+    work: list[tuple[ContentMatch, list[int]]] = []
 
-    def explore(states: list[int]) -> ContentMatch:
-        nonlocal labeled
+    def state_for(states: list[int]) -> ContentMatch:
+        key = ",".join([str(s) for s in states])
+        found = labeled.get(key)
+        if found is None:
+            found = labeled[key] = ContentMatch((len(nfa) - 1) in states)
+            work.append((found, states))
+        return found
+
+    def explore(state: ContentMatch, states: list[int]) -> None:
         out: list[DFAState] = []
         for node in states:
             for item in nfa[node]:
@@ -536,18 +546,14 @@ def dfa(nfa: list[list[Edge]]) -> ContentMatch:
                         out.append(DFAState(term, set))
                     if n not in set:
                         set.append(n)
-        state = ContentMatch((len(nfa) - 1) in states)
-        labeled[",".join([str(s) for s in states])] = state
         for i in range(len(out)):
             out[i][1].sort(key=cmp_to_key(cmp))
-            states = out[i][1]
-            find_by_key = ",".join(str(s) for s in states)
-            state.next.append(
-                MatchEdge(out[i][0], labeled.get(find_by_key) or explore(states)),
-            )
-        return state
+            state.next.append(MatchEdge(out[i][0], state_for(out[i][1])))
 
-    return explore(null_from(nfa, 0))
+    start = state_for(null_from(nfa, 0))
+    while work:
+        explore(*work.pop())
+    return start
 
 
 def check_for_dead_ends(match: ContentMatch, stream: TokenStream) -> None:
